@@ -289,3 +289,23 @@ func subset(a []string, of map[string]bool) bool {
 	}
 	return true
 }
+
+// tickIncFails: a pass in which the quota store fails the increment for the first request the loop tries: the request
+// is not counted, is found "not allowed", goes back into the queue (with a new stamp in the re-stamping variant) and
+// the pass ends - nobody is admitted.
+func (m *mirror) tickIncFails() []string {
+	for len(m.heap) > 0 {
+		e := m.popBest()
+		if !m.inMap[e.id] || m.processed[e.id] {
+			continue
+		}
+		st := m.orig[e.id]
+		if m.restamp {
+			m.stampSeq++
+			st = m.stampSeq
+		}
+		m.push(hent{e.id, e.prio, st})
+		return []string{}
+	}
+	return []string{}
+}
